@@ -149,6 +149,16 @@ def check_lifecycle(res, man, layer, final=True):
                     depth = 0
         if final and depth != 0:
             res.fail(f"C08|bracket-open|{start.name}", f"[{layer}] {start.name} never closed by {fin.name}")
+    # ---- "spa not found" is the outcome of a locate phase that discovered nothing: it may not be announced (and the manager
+    # parked in ERROR_SPA_NOT_FOUND) when the phase just closed did report the spa
+    found = False
+    for r in pre:
+        if r["event"] == E.LOCATING_STARTED:
+            found = False
+        elif r["event"] == E.LOCATING_DISCOVERED_SPA:
+            found = True
+        elif r["event"] == E.SPA_NOT_FOUND and found:
+            res.fail("C08|not-found-although-discovered", f"[{layer}] SPA_NOT_FOUND raised in state {r['before'].name} although the locate phase before it discovered the spa")
     # ---- resets
     for r in man.resets:
         if not r["completed"]:
@@ -229,7 +239,15 @@ def enumerated(tier):
     pairs = [[a, b] for a in ENUM_OPS for b in ENUM_OPS]
     variants = [{}, {"CLIENT_FACADE_TEARDOWN": 0.3}]
 
+    # and: one user reset / set-spa-info at every 50 ms instant of the first 1.5 s (two locate phases + the connection), while
+    # the client's handler suspends 0.3 s on one chosen event - a crash-point sweep over the suspended windows
+    sweep = [(ev, round(0.05 * k, 2), w) for ev in SUSPENDABLE for k in range(1, 31) for w in ("reset", "setinfo")]
+    n_pairs = len(pairs) * len(variants)
+
     def fn(i):
+        if i >= n_main + n_pairs:
+            ev, t, w = sweep[i - n_main - n_pairs]
+            return {"k": "A", "discover": ["found"] * 4, "connect": ["complete"] * 3, "ops": [[t, w, ""]], "suspend": [], "suspend_map": {ev: 0.3}}
         if i < n_main:
             d, c = combos[i % len(combos)]
             ops = seqs[i // len(combos)]
@@ -239,12 +257,13 @@ def enumerated(tier):
         return {"k": "A", "discover": ["found", "found"], "connect": ["complete", "complete"], "ops": [list(o) for o in ops], "suspend": [],
                 "suspend_map": dict(variants[i // len(pairs)])}
 
-    return n_main + len(pairs) * len(variants), fn
+    return n_main + n_pairs + len(sweep), fn
 
 
 def coverage_extra(tier):
     return {"layer_A_enumeration": "all (discover, connect) outcome pairs x all op sequences up to depth %d over %d timed ops; plus all %d ordered pairs of timed ops after a "
-            "successful connection, with a prompt and with a suspending teardown handler" % (2 if tier == "thorough" else 1, len(ENUM_OPS), len(ENUM_OPS) ** 2)}
+            "successful connection, with a prompt and with a suspending teardown handler; plus a user reset / set-spa-info at each 50 ms instant of the "
+            "first 1.5 s x each of the 10 suspendable events suspended 0.3 s (600 cases)" % (2 if tier == "thorough" else 1, len(ENUM_OPS), len(ENUM_OPS) ** 2)}
 
 
 _SNAP = None
